@@ -110,7 +110,12 @@ func ruleEscapeTable(c *Ctx, rule string) {
 			}
 			k, ok := res.Results[0].(PConst)
 			want := (ch >= '0' && ch <= '9') || (ch >= 'a' && ch <= 'f') || (ch >= 'A' && ch <= 'F')
-			if !ok || k.V == nil || constant.BoolVal(k.V) != want {
+			if !ok || k.V == nil {
+				// the test is delegated to something the folding does not enter (unicode.Is with a range table)
+				r.Ob(rule, "IsHex accepts exactly 0-9A-Fa-f", c.pos(hex.Pos())).Und(fmt.Sprintf("IsHex(%q) does not fold to a constant", ch))
+				return
+			}
+			if constant.BoolVal(k.V) != want {
 				bad = append(bad, fmt.Sprintf("%q", ch))
 			}
 		}
@@ -410,13 +415,23 @@ func ruleKeywordCase(c *Ctx, rule string) {
 		whole := true
 		for _, l := range lowers {
 			a := l.Call.Args[0]
-			if ac, ok := a.(*ssa.Call); !ok || ac.Call.StaticCallee() == nil || ac.Call.StaticCallee().Name() != "String" {
-				if _, isParam := a.(*ssa.Parameter); !isParam {
+			// the witness of "not the whole lexeme" is a piece cut out of it; a parameter, a field of a record or the buffer's String()
+			// is the lexeme as a whole
+			for _, leaf := range phiLeaves(a, nil) {
+				switch x := leaf.(type) {
+				case *ssa.Slice:
 					whole = false
+				case *ssa.Lookup:
+					// a word that was looked up in a table (of aliases) before it was lower-cased: the table saw the raw spelling
+					whole = false
+				case *ssa.Extract:
+					if _, isLookup := x.Tuple.(*ssa.Lookup); isLookup {
+						whole = false
+					}
 				}
 			}
 		}
-		ob2.Check(whole, "lookup key = strings.ToLower(buf.String())", "strings.ToLower is not applied to the whole lexeme buffer")
+		ob2.Check(whole, "lookup key = strings.ToLower(buf.String())", "strings.ToLower is not applied to the whole lexeme as it was read (a piece of it, or a word that a table was already asked about in its raw spelling)")
 		ob2.Nontrivial = true
 	}
 }
